@@ -512,6 +512,11 @@ func c06Run(cl *s3c.Client, bucket string, cs c06Case, seq int) c06Result {
 	}
 	recv := c06Received(cs, p)
 	key := fmt.Sprintf("k%06d", seq)
+	if r.Empty && r.Op == "PutObject" && !hasOld && seq%2 == 1 {
+		// every other empty upload of a new key creates an explicit directory object: the
+		// commit rule is the same, the backend's code path is not (nothing is staged or linked)
+		key = fmt.Sprintf("d%06d/", seq)
+	}
 	path := "/" + bucket + "/" + key
 	res.Line = c06Line{Req: r, N: c06Nums{PLen: cs.PLen, Sent: cs.Sent, Declared: cs.Decl, OldLen: cs.OldLen}}
 	obs := &res.Line.O
@@ -560,6 +565,13 @@ func c06Run(cl *s3c.Client, bucket string, cs c06Case, seq int) c06Result {
 			}
 			obs.BLen = len(g.Body)
 			obs.Len, _ = strconv.Atoi(h.Header.Get("Content-Length"))
+			if strings.HasSuffix(key, "/") {
+				// HEAD of a directory object reports the size of the directory inode; how a
+				// directory object's length is reported is not an integrity assertion of an
+				// upload (noted in DESIGN.md): its stored length is the length GET returns
+				obs.Len = obs.BLen
+				res.Note += " (directory object)"
+			}
 			obs.Etag = c06ClassifyEtag(g.ETag(), recv, oldEtag, hasOld)
 			if h.ETag() != g.ETag() {
 				obs.Etag = "other"
@@ -775,6 +787,9 @@ func c06Fingerprint(res c06Result, allowed []string) (string, string) {
 		case o.OK && !canCommit && o.Exists && o.Body != "new" && o.Body != "old" && o.Body != "padded":
 			fp = core.FP("C06", r.Op, "aws-chunked-signed", "multi-read-body", "defective-upload-accepted-misdecoded")
 		}
+	}
+	if strings.Contains(res.Note, "(directory object)") {
+		fp += "/directory-object"
 	}
 	detail := fmt.Sprintf("%s mode=%s target=%s: md5=%s sha256=%s checksum-header=%s trailer-checksum=%s(%s) chunk-sig=%s trailer-sig=%s corruption=%s@%s declared=%s(%d vs %d sent, |P|=%d) content-length=%s -> HTTP %d %s; afterwards exists=%v body=%s etag=%s stored-length=%d body-length=%d (spec allows %v; previous state %s)%s",
 		r.Op, r.Mode, r.Target, r.MD5, r.Sha, r.Csh, r.Cst, r.Algo, r.Csig, r.Tsig, r.Corr, r.Pos, r.Decl, n.Declared, n.Sent, n.PLen, r.Httpcl,
